@@ -128,6 +128,103 @@ def opaque_string(I, args, pc):
     return VStr(bstr.lit("<lossy>"))
 
 
+# ---- writing, io::copy, Take (read/write handlers: C07/C09) ------------------------------------------------
+def _write_at(I, s, data, pc):
+    """bytes after writing `data` (BStr) at the stream position (overwrite, then extend)"""
+    old, pos = s.fields["bytes"].e, s.fields["pos"].e
+    I.unwind(z3.And(pc, ugt(pos, old.n)), "write beyond the end of the stream (hole) is not modelled")
+    head = bstr.substr(old, bv(0), pos)
+    tail_start = pos + data.n
+    tail = bstr.substr(old, tail_start, z3.If(ugt(old.n, tail_start), old.n - tail_start, bv(0)))
+    new = bstr.concat(bstr.concat(head, data, I.ob(pc)), tail, I.ob(pc))
+    return VStruct("Stream", {"bytes": VStr(bstr.named(new, I.side, "wr")), "pos": VInt(pos + data.n)})
+
+
+def _as_bytes(buf):
+    if isinstance(buf, VVec) and not buf.items:
+        return bstr.lit("")  # `&[]`
+    return buf.e
+
+
+def m_write_all(I, args, pc):
+    s, buf = args[0], _as_bytes(args[1])
+    return Effects(ok(VUnit()), recv=_write_at(I, s, buf, pc))
+
+
+def m_write(I, args, pc):
+    s, buf = args[0], _as_bytes(args[1])
+    return Effects(ok(VInt(buf.n)), recv=_write_at(I, s, buf, pc))
+
+
+def _rest(s, limit=None):
+    """(bytes from the position to the end, at most `limit`; the stream advanced past them)"""
+    data, pos = s.fields["bytes"].e, s.fields["pos"].e
+    rem = z3.If(ule(pos, data.n), data.n - pos, bv(0))
+    k = rem if limit is None else z3.If(ule(limit, rem), limit, rem)
+    got = bstr.substr(data, z3.If(ule(pos, data.n), pos, data.n), k)
+    return got, k, _with_pos(s, pos + k)
+
+
+def m_take(I, args, pc):
+    """Read::take(n) on a `&mut` stream: the Take aliases the stream it was made from"""
+    from symex import VRefPlace, strip_ref
+    e, recv_ast = I.current_call
+    return VStruct("Take", {"src": VRefPlace(strip_ref(recv_ast)), "limit": args[1]})
+
+
+def _take_src(I, take, pc):
+    v, _, _ = I.eval(take.fields["src"].place, I.current_env, pc)
+    return v
+
+
+def m_io_copy(I, args, pc):
+    """std::io::copy(reader, writer): everything the reader still yields is appended at the writer's position"""
+    src, dst = args[0], args[1]
+    if isinstance(src, VStruct) and src.name == "Take":
+        inner = _take_src(I, src, pc)
+        got, k, adv = _rest(inner, src.fields["limit"].e)
+        newdst = _write_at(I, dst, got, pc)
+        return Effects(ok(VInt(k)), args={1: newdst}, places=[(src.fields["src"].place, adv)])
+    if isinstance(src, VStruct) and src.name == "Stream":
+        got, k, adv = _rest(src)
+        newdst = _write_at(I, dst, got, pc)
+        return Effects(ok(VInt(k)), args={0: adv, 1: newdst})
+    from symex import Unsupported
+    raise Unsupported("io::copy from " + type(src).__name__)
+
+
+def m_take_read_to_end(I, args, pc):
+    take, out = args[0], args[1]
+    inner = _take_src(I, take, pc)
+    got, k, adv = _rest(inner, take.fields["limit"].e)
+    if isinstance(out, VVec):
+        out = VStr(bstr.lit(""))
+    newout = VStr(bstr.named(bstr.concat(out.e, got, I.ob(pc)), I.side, "rte"))
+    return Effects(ok(VInt(k)), args={1: newout}, places=[(take.fields["src"].place, adv)])
+
+
+def m_take_into_inner(I, args, pc):
+    return _take_src(I, args[0], pc)
+
+
+def m_read_to_vec(I, args, pc):
+    """ReaderUtils::read_to_vec is executed from its source (utils/io_utils.rs); only the dispatch is modelled"""
+    r = I.call("<R as ReaderUtils>::read_to_vec", [args[0], args[1]], pc)
+    return Effects(r, recv=I.last_self)
+
+
+def m_safe_vec_bytes(I, args, pc):
+    """safe_vec(n, None) used as the output buffer of read_to_end: an empty byte vector (capacity is not modelled)"""
+    return ok(VStr(bstr.lit("")))
+
+
+WRITE_OVERRIDES = {
+    "Stream::write_all": m_write_all, "Stream::write": m_write, "Stream::flush": lambda I, a, pc: ok(VUnit()),
+    "Stream::take": m_take, "Take::read_to_end": m_take_read_to_end, "Take::into_inner": m_take_into_inner,
+    "io::copy": m_io_copy, "Stream::read_to_vec": m_read_to_vec, "safe_vec": m_safe_vec_bytes,
+}
+
+
 OVERRIDES = {
     "Stream::rewind": m_rewind, "Stream::stream_position": m_stream_position, "Stream::seek": m_seek,
     "Stream::read_exact": m_read_exact, "Stream::read": m_read,
